@@ -246,11 +246,18 @@ impl<U: TimeUnitTrait> DateTime<U> {
                 unimplemented!("not support year before ce or negative month")
             }
             let dt_month = if flag {
-                (dt_year * 12 + dt.month()) as i32
+                (dt_year * 12 + dt.month0()) as i32
             } else {
-                dt_year as i32 * (-12) + dt.month() as i32
+                dt_year as i32 * (-12) + dt.month0() as i32
             };
             let delta_down = dt_month % dm;
+            // months are truncated from the first instant of the current month
+            dt = dt
+                .date_naive()
+                .with_day(1)
+                .unwrap()
+                .and_time(NaiveTime::MIN)
+                .and_utc();
             dt = match delta_down.cmp(&0) {
                 Ordering::Equal => dt,
                 Ordering::Greater => dt - Months::new(delta_down as u32),
